@@ -541,6 +541,10 @@ func tgRandomRun(rng *rand.Rand, kind string, res *hx.Result, runNo int) ([]Even
 		for i := 1; i <= nthreads; i++ {
 			d1, d2 := rng.Intn(6), rng.Intn(6)
 			useCtx, untilStop := rng.Intn(2) == 0, rng.Intn(2) == 0
+			// the parent context of AddContext: never cancelled, ALREADY cancelled (or past its deadline) when the
+			// thread joins, cancelled while it is a member, cancelled after it has left
+			parentMode := rng.Intn(5)
+			cancelAfter := time.Duration(rng.Intn(5000)) * time.Microsecond
 			wg.Add(1)
 			go func(i int) {
 				defer wg.Done()
@@ -550,14 +554,34 @@ func tgRandomRun(rng *rand.Rand, kind string, res *hx.Result, runNo int) ([]Even
 				var err error
 				var ctx context.Context
 				if useCtx {
-					ctx, done, err = tg.AddContext(context.Background())
+					parent, cancelParent := context.WithCancel(context.Background())
+					var pOnce sync.Once
+					cancelP := func() {
+						pOnce.Do(func() { rec.emit(Event{Op: "CancelParent", P: name}); cancelParent() })
+					}
+					defer cancelP()
+					switch parentMode {
+					case 1:
+						cancelP()
+					case 2: // a deadline that has already passed
+						rec.emit(Event{Op: "CancelParent", P: name})
+						pOnce.Do(func() {})
+						var c2 context.CancelFunc
+						parent, c2 = context.WithDeadline(context.Background(), time.Now().Add(-time.Second))
+						defer c2()
+						defer cancelParent()
+					case 3, 4:
+						wg.Add(1)
+						go func() { defer wg.Done(); time.Sleep(cancelAfter); cancelP() }()
+					}
+					ctx, done, err = tg.AddContext(parent)
 				} else {
 					done, err = tg.Add()
 				}
 				rec.emit(Event{Op: "ThAdd", P: name, OK: err == nil})
 				if err != nil {
 					if err != threadgroup.ErrClosed {
-						res.Mismatch("driver:tg:add-error", "Add returned "+err.Error(), nil)
+						res.Mismatch("driver:tg:add-error", fmt.Sprintf("tg run %d: AddContext/Add on an open group returned %q (parent mode %d): whatever Add counted is never given back", runNo, err.Error(), parentMode), nil)
 					}
 					return
 				}
@@ -600,8 +624,8 @@ func tgRandomRun(rng *rand.Rand, kind string, res *hx.Result, runNo int) ([]Even
 		select {
 		case <-done:
 		case <-time.After(closeDeadline):
-			res.Mismatch("driver:tg:stop-hangs", fmt.Sprintf("tg run %d: Stop did not return", runNo), nil)
-			return nil, fmt.Errorf("stop hangs")
+			res.Mismatch("driver:tg:stop-hangs", fmt.Sprintf("tg run %d: every member has called its done func, yet ThreadGroup.Stop has not returned within %v", runNo, closeDeadline), nil)
+			return renameThreads(rec.snapshot()), nil
 		}
 	case "rhp4":
 		r, err := newTGRHP4()
@@ -700,7 +724,7 @@ func renameThreads(evs []Event) []Event {
 	names := map[string]string{}
 	var out []Event
 	for _, e := range evs {
-		if e.Op == "ThAdd" || e.Op == "ThDone" {
+		if e.Op == "ThAdd" || e.Op == "ThDone" || e.Op == "CancelParent" {
 			n, ok := names[e.P]
 			if !ok {
 				if len(names) >= 12 {
@@ -825,6 +849,14 @@ func TestDriver(t *testing.T) {
 			res.Sample(map[string]any{"wallet_run": evs})
 		}
 	}
+	// Connect with a request context that is already cancelled / past its deadline, then Close under a watchdog
+	for i := 0; i < hx.EnvInt("VERIF_CONNECT_RUNS", 2); i++ {
+		if err := connectExpiredRun(res, i); err != nil {
+			res.Note("connect run %d: %v", i, err)
+			res.Count("infra", 1)
+		}
+		res.Eval(fmt.Sprintf("connect-expired|%d", i))
+	}
 	for _, ws := range [][]*shardWriter{runW, connW, tgW} {
 		for _, w := range ws {
 			if err := w.tw.Close(); err != nil {
@@ -838,6 +870,44 @@ func TestDriver(t *testing.T) {
 	res.Traces = int(ntraces.Load())
 	res.Count("events", int(nevents.Load()))
 	res.Count("close_stuck_runs", int(stuckRuns.Load()))
+}
+
+// connectExpiredRun: Syncer.Connect joins the thread group with AddContext(requestContext).  A request whose
+// context is already cancelled (or past its deadline) fails -- that is fine -- but it must leave nothing
+// behind in the group: a later Close, with no work running, has to return.  The watchdog is generous
+// (closeDeadline, nothing else runs in this syncer) so that load cannot cause a false alarm.
+func connectExpiredRun(res *hx.Result, runNo int) error {
+	nd, err := newNode(nodeCfg{MaxInflight: 4, MaxSubnet: 0, MaxIn: 4, MaxOut: 4})
+	if err != nil {
+		return err
+	}
+	l, err := net.Listen("tcp", "127.0.0.1:0")
+	if err != nil {
+		return err
+	}
+	defer l.Close()
+	for k := 0; k < 3; k++ {
+		var ctx context.Context
+		var cancel context.CancelFunc
+		if (runNo+k)%2 == 0 {
+			ctx, cancel = context.WithCancel(context.Background())
+			cancel()
+		} else {
+			ctx, cancel = context.WithDeadline(context.Background(), time.Now().Add(-time.Second))
+		}
+		if _, err := nd.s.Connect(ctx, l.Addr().String()); err == nil {
+			res.Mismatch("driver:syncer:connect-with-dead-context-succeeded", fmt.Sprintf("connect run %d: Connect with a dead context returned no error", runNo), nil)
+		}
+		cancel()
+	}
+	nd.beginClose()
+	select {
+	case <-nd.closed:
+	case <-time.After(closeDeadline):
+		res.Mismatch("driver:syncer:close-blocked-after-dead-context-connect",
+			fmt.Sprintf("connect run %d: three Syncer.Connect calls with an already cancelled / expired context failed (as they should); afterwards, with no peer and no RPC, Syncer.Close has not returned within %v: the thread group still counts members that no longer exist\n%s", runNo, closeDeadline, syncerStacks()), nil)
+	}
+	return nil
 }
 
 // TestCapStorm is the probe of DESIGN.md section 7 #10 as a check: 12 peers connect at once
